@@ -1016,6 +1016,24 @@ func (c *SpecCtx) evalCall(e *ECall) Val {
 			c.fail("callres(%q, %d): no such result", nlit.Val, k64)
 		}
 		return rs[k64]
+	case "aftercall":
+		// aftercall("F", e): e evaluated in the memory state right after the function's single call of F
+		if len(e.Args) != 2 {
+			c.fail("aftercall(name, e)")
+		}
+		nlit, okn := e.Args[0].(*EStr)
+		if !okn {
+			c.fail("aftercall: name must be a string constant")
+		}
+		if c.vc.callCount[nlit.Val] != 1 || c.vc.callSt[nlit.Val] == nil {
+			c.fail("aftercall(%q, ...): the function must call %s exactly once on the analysed paths (found %d calls)", nlit.Val, nlit.Val, c.vc.callCount[nlit.Val])
+		}
+		saveSt, saveIn := c.st, c.inOld
+		c.st = c.vc.callSt[nlit.Val]
+		c.inOld = true
+		v := c.eval(e.Args[1])
+		c.st, c.inOld = saveSt, saveIn
+		return v
 	case "trimprefix":
 		// strings.TrimPrefix, same model as the library call: s[len(p):] if HasPrefix(s, p) else s
 		sv := c.eval(e.Args[0])
